@@ -766,6 +766,9 @@ def kind_class(st, has_call, cbf, has_iter):
             ns["_can_break_flow"] = cbf
         if has_iter:
             ns["__iter__"] = _iter_method
+            # a container-like element that is empty (falsy) when the adapter is built: no documented rule looks at the
+            # truth value of an element
+            ns["__len__"] = lambda self: 0
         ns["__init__"] = lambda self: setattr(self, "log", [])
         ns["__repr__"] = lambda self: "El%r" % (key,)
         c = type("El", (object,), ns)
